@@ -381,7 +381,11 @@ func (u *Unit) calleeEnv(st *State, fi *FuncInfo, ct *Contract, targs []types.Ty
 	env := &SpecEnv{u: u, cur: st, old: st, vars: map[string]Value{}, tvars: map[string]types.Type{}}
 	for i, n := range ct.Params {
 		if i < len(args) {
-			env.vars[n] = args[i]
+			a := args[i]
+			if a.K == KIface && a.Inner != nil {
+				a = *a.Inner
+			}
+			env.vars[n] = a
 		}
 	}
 	tn := ct.TNames
@@ -414,7 +418,15 @@ func (u *Unit) callByContract(st *State, fi *FuncInfo, targs []types.Type, args 
 	u.calls[fi.Key] = true
 	env := u.calleeEnv(st, fi, ct, targs, args)
 	for _, l := range ct.Lets {
+		if _, isParam := env.vars[l.Label]; isParam {
+			continue // ghost binding of an interface parameter: only for verifying the body
+		}
 		env.vars[l.Label] = u.evalSpec(env, l.Expr)
+	}
+	for _, h := range u.ct.CallHints {
+		if h.Label == fi.Key {
+			st.Assume(u.evalHint(u.fnEnv(st), h))
+		}
 	}
 	site := u.site("call:" + fi.Key)
 	// preconditions
@@ -603,6 +615,7 @@ func assignedVars(info *types.Info, nodes ...ast.Node) map[types.Object]bool {
 func (u *Unit) loopEnv(st *State, ord int) *SpecEnv {
 	env := u.fnEnv(st)
 	env.kord = ord
+	env.pre = u.loopPre[ord]
 	for o, obj := range u.loopVar {
 		if v, ok := st.vars[obj]; ok {
 			env.vars[fmt.Sprintf("$i%d", o)] = v
@@ -662,6 +675,7 @@ func (u *Unit) execLoop(st *State, init ast.Stmt, cond ast.Expr, post ast.Stmt, 
 		lc = &LoopContract{Ordinal: ord}
 	}
 	u.loopsSeen[ord] = true
+	u.loopPre[ord] = st.clone()
 	// inv-init
 	env0 := u.loopEnv(st, ord)
 	for i, inv := range lc.Invariants {
@@ -681,8 +695,15 @@ func (u *Unit) execLoop(st *State, init ast.Stmt, cond ast.Expr, post ast.Stmt, 
 	if ivar != nil && rng != nil {
 		head.vars[ivar] = u.freshLike(head, intV(IntLit(0)), ivar.Name())
 	}
+	kinds := u.loopModKinds(body, post)
 	for m := range u.ct.Modifies {
-		u.havocClass(head, m, u.ct, u.fnEnv(head))
+		cls := m
+		if i := indexByte(m, '('); i >= 0 {
+			cls = m[:i]
+		}
+		if kinds[cls] {
+			u.havocClass(head, m, u.ct, u.fnEnv(head))
+		}
 	}
 	headHavoc := map[string]bool{}
 	for k, v := range head.mem {
@@ -807,3 +828,88 @@ func (u *Unit) freshLike(st *State, v Value, name string) Value {
 }
 
 var _ = token.ADD
+
+// loopModKinds over-approximates the classes of state a loop body can modify.
+func (u *Unit) loopModKinds(nodes ...ast.Node) map[string]bool {
+	kinds := map[string]bool{}
+	info := u.prog.Info
+	for _, n := range nodes {
+		if n == nil {
+			continue
+		}
+		ast.Inspect(n, func(x ast.Node) bool {
+			switch s := x.(type) {
+			case *ast.AssignStmt:
+				for _, l := range s.Lhs {
+					switch l := ast.Unparen(l).(type) {
+					case *ast.IndexExpr:
+						kinds["H"] = true
+					case *ast.SelectorExpr:
+						_ = l
+						kinds["hdr"] = true
+					case *ast.StarExpr:
+						kinds["H"], kinds["hdr"] = true, true
+					}
+				}
+			case *ast.IncDecStmt:
+				if _, ok := ast.Unparen(s.X).(*ast.Ident); !ok {
+					kinds["H"], kinds["hdr"] = true, true
+				}
+			case *ast.CallExpr:
+				if tv, ok := info.Types[s.Fun]; ok && tv.IsType() {
+					return true
+				}
+				var obj types.Object
+				switch f := ast.Unparen(s.Fun).(type) {
+				case *ast.Ident:
+					obj = info.Uses[f]
+				case *ast.IndexExpr:
+					if id, ok := f.X.(*ast.Ident); ok {
+						obj = info.Uses[id]
+					}
+				case *ast.SelectorExpr:
+					if sel, ok := info.Selections[f]; ok {
+						obj = sel.Obj()
+					} else {
+						obj = info.Uses[f.Sel]
+					}
+				}
+				switch o := obj.(type) {
+				case *types.Builtin:
+					switch o.Name() {
+					case "append", "make", "new":
+						kinds["H"], kinds["brk"], kinds["allocs"] = true, true, true
+					case "copy", "clear":
+						kinds["H"] = true
+					}
+				case *types.Func:
+					if fi := u.prog.ByObj[o.Origin()]; fi != nil {
+						if ct := u.cf.Funcs[fi.Key]; ct != nil {
+							for m := range ct.Modifies {
+								cls := m
+								if i := indexByte(m, '('); i >= 0 {
+									cls = m[:i]
+								}
+								kinds[cls] = true
+							}
+							return true
+						}
+					}
+					if o.Pkg() != nil && (o.Pkg().Path() == "math" || o.Pkg().Path() == "unsafe") {
+						return true
+					}
+					// unknown callee: anything
+					for _, k := range []string{"H", "hdr", "brk", "obj", "allocs", "pool"} {
+						kinds[k] = true
+					}
+				default:
+					for _, k := range []string{"H", "hdr", "brk", "obj", "allocs", "pool"} {
+						kinds[k] = true
+					}
+				}
+			}
+			return true
+		})
+	}
+	return kinds
+}
